@@ -387,6 +387,9 @@ fn parse_check_line(mut line: &str) -> anyhow::Result<ParsedCheckLine> {
 
     // Decode the hex hash.
     ensure!(hash_hex.len() == 2 * blake3::OUT_LEN, "Invalid hash length");
+    // The length above is in bytes. Reject multi-byte characters here, so that the 64 bytes are
+    // known to be 64 characters below.
+    ensure!(hash_hex.is_ascii(), "Invalid hex");
     let mut hex_chars = hash_hex.chars();
     let mut hash_bytes = [0; blake3::OUT_LEN];
     for byte in &mut hash_bytes {
